@@ -6,7 +6,7 @@ from ..interp_prop import InterpProp
 class C03(InterpProp):
     id = 'C03'
     decoy = 0.12
-    anomaly_tags = ('macro',)
+    anomaly_tags = ('macro', 'config')
     # observables compared with the model (see InterpProp.normalize)
     cmp_eff = ('exit', 'action', 'entry')
     cmp_step = None
@@ -37,6 +37,33 @@ class C03(InterpProp):
             case.payload['no_model'] = True
             case.model_ok = False
         return case
+
+    @staticmethod
+    def stabilised_out_of_turn(sc, active, m):
+        """the leaves of the configuration that need something (a final child of the root, a history state, an
+        orthogonal or compound state without active child) are served deepest first, then in the order of their names"""
+        from sismic.model import (CompoundState, DeepHistoryState, FinalState, OrthogonalState, ShallowHistoryState)
+        tr = oracles.tree(sc)
+        leaves = [n for n in active if not any(d in active for d in tr.descendants_for(n))]
+
+        def needy(n):
+            st = sc.state_for(n)
+            return (isinstance(st, FinalState) and sc.parent_for(n) == sc.root) or \
+                isinstance(st, (ShallowHistoryState, DeepHistoryState)) or \
+                (isinstance(st, OrthogonalState) and sc.children_for(n)) or \
+                (isinstance(st, CompoundState) and st.initial)
+        order = sorted([n for n in leaves if needy(n)], key=lambda n: (-tr.depth_for(n), n))
+        if not order:
+            return None
+        if m['exited']:
+            served = m['exited'][0]
+        elif m['entered']:
+            served = sc.parent_for(m['entered'][0])
+        else:
+            return None
+        if served in order and served != order[0]:
+            return 'stabilisation served %s before %s (deepest first, then by name: %s)' % (served, order[0], order)
+        return None
 
     def check_exec(self, info, res):
         r, gh, sc, trans = info['r'], info['ghost'], info['sc'], info['trans']
@@ -73,6 +100,10 @@ class C03(InterpProp):
                         res.violations.append('step %d: %s entered before its ancestor %s' % (k, a, b))
                     if sc.parent_for(a) == sc.parent_for(b) and not a < b:
                         res.violations.append('step %d: sibling entries not in name order: %s' % (k, en))
+            if m['transition'] is None and not res.violations:
+                late = self.stabilised_out_of_turn(sc, active, m)
+                if late:
+                    res.violations.append('step %d: %s' % (k, late))
             for s in ex:
                 active.discard(s)
             for s in en:
